@@ -69,7 +69,12 @@ Inductive rentry :=
 Inductive bop :=
 | BReports (rs : list rentry)
 | BSet (bucket : bool) (limit burst : Z)
-| BRemove (i : Z).
+| BRemove (i : Z)
+| BOverlap (report_first : bool) (r : rentry) (bucket : bool) (limit burst : Z).
+    (* a report overlapping a change of the schema: the report was under way (it had looked the
+       upstream state up, or was waiting for the per-upstream lock) when the change was handled.
+       [report_first] is the order the lock served them in; it is not observable and the spec
+       does not look at it. *)
 
 (* what was observed *)
 Record sobs := {
@@ -96,47 +101,62 @@ Fixpoint answers_with (flag : bool) (cs : list bool) (ans : list (option (Z * Z)
 Definition all_answered (cs : list bool) (ans : list (option (Z * Z))) : bool :=
   (List.length cs =? List.length ans)%nat && forallb (fun a => match a with Some _ => true | None => false end) ans.
 
-(* clause vector of one step: answered, floor, cap, step_safe, no_growth, burst, over_commit, count *)
-Definition step_ok (is_bucket : bool) (limit gburst : Z) (before obefore : list (Z * (Z * Z)))
-           (o : bop) (b : sobs) : list bool :=
-  let after := o_quotas b in
-  match o with
-  | BReports rs =>
-      let cs := item_counts rs in
-      let alloc := answers_with false cs (o_ans b) in
-      let cnt := answers_with true cs (o_ans b) in
-      [ all_answered cs (o_ans b);
-        forallb (fun qb => floor_ok (fst qb)) alloc;
-        forallb (fun qb => cap_ok limit (fst qb)) alloc;
-        match rs, o_ans b with
-        | [EReport _ _ false _ _ _ _], [Some (q, _)] => step_safe_ok limit (rec_sum before) (rec_sum after) q
-        | _, _ => true
-        end;
-        match rs, o_ans b, o_cur b with
-        | [EReport _ _ false _ _ _ _], [Some (q, _)], [c] => no_growth_ok limit (rec_sum before) c q
-        | _, _, _ => true
-        end;
-        forallb (fun qb => burst_ok is_bucket limit gburst (fst qb) (snd qb)) alloc;
-        match cnt with
-        | [] => rec_sum1 after <=? Z.max limit (rec_sum1 before)
-        | _ => true                     (* count-strategy answers are not quotas *)
-        end;
-        forallb (fun qb => count_ok is_bucket limit gburst (fst qb) (snd qb)) cnt ]
-  | BSet bk n g =>
-      (* a change of the item type brings the quotas recorded with that type back into the sum *)
-      let before' := if Bool.eqb bk is_bucket then before else obefore in
-      [true; true; true; true; true; true; rec_sum1 after <=? Z.max n (rec_sum1 before'); true]
-  | BRemove _ =>
-      [true; true; true; true; true; true; rec_sum1 after <=? Z.max limit (rec_sum1 before); true]
-  end.
-
-Definition cfg_after (is_bucket : bool) (limit gburst : Z) (o : bop) : bool * Z * Z :=
-  match o with BSet bk n g => (bk, n, g) | _ => (is_bucket, limit, gburst) end.
+Definition all8 : list bool := [true; true; true; true; true; true; true; true].
 
 Definition and_rows (a b : list bool) : list bool :=
   map (fun p => andb (fst p) (snd p)) (combine a b).
 
-Definition all8 : list bool := [true; true; true; true; true; true; true; true].
+(* clause vector of a batch of reports: answered, floor, cap, step_safe, no_growth, burst, over_commit, count *)
+Definition report_row (is_bucket : bool) (limit gburst : Z) (before : list (Z * (Z * Z)))
+           (rs : list rentry) (cur : list Z) (ans : list (option (Z * Z))) (after : list (Z * (Z * Z))) : list bool :=
+  let cs := item_counts rs in
+  let alloc := answers_with false cs ans in
+  let cnt := answers_with true cs ans in
+  [ all_answered cs ans;
+    forallb (fun qb => floor_ok (fst qb)) alloc;
+    forallb (fun qb => cap_ok limit (fst qb)) alloc;
+    match rs, ans with
+    | [EReport _ _ false _ _ _ _], [Some (q, _)] => step_safe_ok limit (rec_sum before) (rec_sum after) q
+    | _, _ => true
+    end;
+    match rs, ans, cur with
+    | [EReport _ _ false _ _ _ _], [Some (q, _)], [c] => no_growth_ok limit (rec_sum before) c q
+    | _, _, _ => true
+    end;
+    forallb (fun qb => burst_ok is_bucket limit gburst (fst qb) (snd qb)) alloc;
+    match cnt with
+    | [] => rec_sum1 after <=? Z.max limit (rec_sum1 before)
+    | _ => true                     (* count-strategy answers are not quotas *)
+    end;
+    forallb (fun qb => count_ok is_bucket limit gburst (fst qb) (snd qb)) cnt ].
+
+(* a change of the schema / a removal: only the over_commit clause speaks *)
+Definition quiet_row (limit : Z) (before after : list (Z * (Z * Z))) : list bool :=
+  [true; true; true; true; true; true; rec_sum1 after <=? Z.max limit (rec_sum1 before); true].
+
+Definition step_ok (is_bucket : bool) (limit gburst : Z) (before obefore : list (Z * (Z * Z)))
+           (o : bop) (b : sobs) : list bool :=
+  let after := o_quotas b in
+  match o with
+  | BReports rs => report_row is_bucket limit gburst before rs (o_cur b) (o_ans b) after
+  | BSet bk n g =>
+      (* a change of the item type brings the quotas recorded with that type back into the sum *)
+      quiet_row n (if Bool.eqb bk is_bucket then before else obefore) after
+  | BRemove _ => quiet_row limit before after
+  | BOverlap _ r bk n g =>
+      let same := Bool.eqb bk is_bucket in
+      (* either the report was served first: it obeys the old configuration, then the change ... *)
+      let mid := if same then o_quotas b else o_oquotas b in      (* the record of the old type after the report *)
+      let rowA := and_rows (report_row is_bucket limit gburst before [r] (o_cur b) (o_ans b) mid)
+                           (quiet_row n (if same then mid else obefore) after) in
+      (* ... or the change was served first and the report obeys the new configuration *)
+      let before' := if same then before else obefore in
+      let rowB := report_row bk n g before' [r] (o_cur b) (o_ans b) after in
+      if forallb (fun x => x) rowA || forallb (fun x => x) rowB then all8 else rowB
+  end.
+
+Definition cfg_after (is_bucket : bool) (limit gburst : Z) (o : bop) : bool * Z * Z :=
+  match o with BSet bk n g => (bk, n, g) | BOverlap _ _ bk n g => (bk, n, g) | _ => (is_bucket, limit, gburst) end.
 
 (* fold over the trace; also collects (limit, gburst, quota, burst) of every allocate answer of a token bucket *)
 Fixpoint hist_rows (is_bucket : bool) (limit gburst : Z) (before obefore : list (Z * (Z * Z)))
